@@ -354,7 +354,100 @@ fn term_fold(lhs0: &Factor, rhs_list: &Vec<(FormulaOperator, Factor)>) -> (r: Re
     plan.dropped += u.dropped
 
 
+FACTOR_MODEL = """
+// model for the evaluator `factor` (src/interpreter/src/expressions.rs, whole body): a factor's value is `fv(node)` (the NAME of what this very
+// function returns: the recursive calls are the stand-in `factor_rec`), a term's value `tv`, an expression's `ev`; the three unary compilers
+// return a tagged function object over their single operand; solving it yields `out1(tag, operand)`.
+#[derive(Clone, Copy, PartialEq, Eq, Structural)]
+pub struct Value { pub id: u64 }
+pub struct Term { pub id: u64 }
+pub struct Expression { pub id: u64 }
+pub enum Factor { Term(Box<Term>), Parenthetical(Box<Factor>), Expression(Expression), Negate(Box<Factor>), Not(Box<Factor>), Transpose(Box<Factor>) }
+pub struct Environment { pub id: u64 }
+pub struct Interpreter { pub steps: Ghost<Seq<Fx>> }
+pub struct MechError { pub id: u64 }
+#[derive(Clone, Copy, PartialEq, Eq, Structural)]
+pub enum Tag { MathNegate, LogicNot, MatrixTranspose }
+#[derive(Clone, Copy, PartialEq, Eq, Structural)]
+pub struct Fx { pub tag: Tag, pub a: Value }
+pub uninterp spec fn fv(f: Factor) -> Option<Value>;
+pub uninterp spec fn tv(t: Term) -> Option<Value>;
+pub uninterp spec fn ev(e: Expression) -> Option<Value>;
+pub uninterp spec fn accepts(t: Tag, a: Value) -> bool;        // the compiler accepts the operand
+pub uninterp spec fn out1(t: Tag, a: Value) -> Value;          // the value of the solved unary function
+#[verifier::external_body]
+pub fn factor_rec(f: &Factor, env: Option<&Environment>, p: &mut Interpreter) -> (r: Result<Value, MechError>)
+  ensures (match r { Ok(v) => fv(*f) == Some(v), Err(_) => fv(*f) is None }),
+{ unimplemented!() }
+#[verifier::external_body]
+pub fn term(t: &Term, env: Option<&Environment>, p: &mut Interpreter) -> (r: Result<Value, MechError>)
+  ensures (match r { Ok(v) => tv(*t) == Some(v), Err(_) => tv(*t) is None }),
+{ unimplemented!() }
+#[verifier::external_body]
+pub fn expression(e: &Expression, env: Option<&Environment>, p: &mut Interpreter) -> (r: Result<Value, MechError>)
+  ensures (match r { Ok(v) => ev(*e) == Some(v), Err(_) => ev(*e) is None }),
+{ unimplemented!() }
+impl Fx {
+  #[verifier::external_body]
+  pub fn solve(&self) { unimplemented!() }
+  #[verifier::external_body]
+  pub fn out(&self) -> (v: Value) ensures v == out1(self.tag, self.a), { unimplemented!() }
+}
+#[verifier::external_body]
+pub fn add_plan_step(p: &mut Interpreter, f: Fx) ensures final(p).steps@ == old(p).steps@.push(f), { unimplemented!() }
+// ---- THE CONTRACT (C02): parentheses only group (the value of `(f)` is the value of f); a unary minus / not / transpose applies to the value
+// of the factor it is attached to
+pub open spec fn un(t: Tag, x: Option<Value>) -> Option<Value> { match x { None => None, Some(v) => if accepts(t, v) { Some(out1(t, v)) } else { None } } }
+pub open spec fn factor_value(f: Factor) -> Option<Value> {
+  match f {
+    Factor::Term(t) => tv(*t), Factor::Parenthetical(x) => fv(*x), Factor::Expression(e) => ev(e),
+    Factor::Negate(x) => un(Tag::MathNegate, fv(*x)), Factor::Not(x) => un(Tag::LogicNot, fv(*x)), Factor::Transpose(x) => un(Tag::MatrixTranspose, fv(*x)),
+  }
+}
+"""
+
+
+def factor_unit(plan):
+    """(X) the evaluator `factor` (src/interpreter/src/expressions.rs), whole body: `#[cfg]` arms evaluated (default features); the recursive calls `factor(..)` ->
+    `factor_rec(..)` (modular recursion); `X {}.compile(&vec![v])?` with X in {MathNegate, LogicNot, MatrixTranspose} -> stand-ins returning a tagged function object;
+    `p.state.borrow_mut().add_plan_step(f)` -> `add_plan_step(p, f)`; `&*paren` -> `paren`; the `use` line and the `_ => todo!()` arm dropped (the model enum has exactly the arms)"""
+    name = "C02.eval.factor.parentheses_group_and_unary_apply_to_the_factor"
+    plan.ob(name, "verus", "proved", functions=["src/interpreter/src/expressions.rs: factor (whole body)"],
+            what="the value of a parenthesised formula is the value of the formula inside; unary minus, logical not and transpose are applied to the value of the factor they are attached to (and to nothing else); a term is evaluated by term(), any other expression by expression()")
+    text = read_repo(EXPR_RS)
+    feats = default_features(read_repo(CARGO))
+    sig, body = extract_fn(text, "factor")
+    m = find_code(body, r"match\s+fctr\s*\{")
+    if not m:
+        raise AnchorLost("factor(): `match fctr {` not found")
+    inner = body[m.end():match_brace(body, m.end() - 1) - 1]
+    arms = []
+    for attrs, pat, expr in split_arms(inner):
+        if any(not cfg_eval(re.match(r"#\[cfg\((.*)\)\]$", a.strip(), re.S).group(1), feats) for a in attrs if a.strip().startswith("#[cfg")):
+            continue
+        if pat.strip() == "_":
+            continue
+        e = re.sub(r"//[^\n]*", "", expr)
+        e = re.sub(r"use\s+[\w:]+\s*;", "", e)
+        e = re.sub(r"\bfactor\(\s*&\*(\w+)\s*,", r"factor_rec(\1,", e)
+        e = re.sub(r"\bfactor\(", "factor_rec(", e)
+        e = re.sub(r"\b(MathNegate|LogicNot|MatrixTranspose)\s*\{\s*\}\s*\.compile\(\s*&vec!\[\s*(\w+)\s*\]\s*\)", r"compile1(Tag::\1, \2)", e)
+        e = re.sub(r"p\.state\.borrow_mut\(\)\.add_plan_step\(\s*(\w+)\s*\)", r"add_plan_step(p, \1)", e)
+        if re.search(r"\.compile\(|borrow_mut|todo!", e):
+            raise AnchorLost("factor(): arm `%s` is outside the transcription rules" % pat.strip())
+        arms.append("    %s => %s" % (pat.strip(), e.strip().rstrip(",") + ","))
+    fn = ("#[verifier::external_body]\npub fn compile1(t: Tag, a: Value) -> (r: Result<Fx, MechError>)\n  ensures (match r { Ok(f) => accepts(t, a) && f == (Fx { tag: t, a: a }), Err(_) => !accepts(t, a) }),\n{ unimplemented!() }\n"
+          "fn factor(fctr: &Factor, env: Option<&Environment>, p: &mut Interpreter) -> (res: Result<Value, MechError>)\n"
+          "  ensures (match res { Ok(v) => factor_value(*fctr) == Some(v), Err(_) => factor_value(*fctr) is None }),\n{\n  match fctr {\n" + "\n".join(arms) + "\n  }\n}\n")
+    plan.verus.append(VerusUnit("c02_factor_eval", vlib.verus_file([FACTOR_MODEL, fn, vlib.verus_canary("canary_feval", "x: u64", [])]), {"factor": name}, ["canary_feval"]))
+    plan.dropped.append(factor_unit.__doc__.strip())
+
+
 def plan(plan, tier, seed):
+    try:
+        factor_unit(plan)
+    except AnchorLost as e:
+        plan.anchor_errors.append(("C02.eval.factor.parentheses_group_and_unary_apply_to_the_factor", str(e)))
     try:
         unit(plan)
     except AnchorLost as e:
